@@ -633,6 +633,40 @@ void set_array(A a, const bytes& b)
     }
 }
 
+// the API form through which a group header gets its values (ViewEmit.tla GroupForms)
+inline std::string& group_form()
+{
+    static std::string f = "fill";
+    return f;
+}
+
+template<typename G>
+auto fill_group(G g, std::uint64_t c)
+    -> decltype(::sbepp::fill_group_header(g, static_cast<typename G::size_type>(c)))
+{
+    using S = typename G::size_type;
+    const std::string& f = group_form();
+    if(f == "fill_zero_then_resize")
+    {
+        auto h = ::sbepp::fill_group_header(g, static_cast<S>(0));
+        g.resize(static_cast<S>(c));
+        return h;
+    }
+    if(f == "fill_other_then_resize")
+    {
+        auto h = ::sbepp::fill_group_header(g, static_cast<S>(c + 1));
+        g.resize(static_cast<S>(c));
+        return h;
+    }
+    if(f == "fill_other_then_clear")
+    {
+        auto h = ::sbepp::fill_group_header(g, static_cast<S>(3));
+        g.clear();
+        return h;
+    }
+    return ::sbepp::fill_group_header(g, static_cast<S>(c));
+}
+
 // the API form through which assign_data gives the value to the <data> member
 // (names are those of ViewEmit.tla DataForms; set by the replay loop)
 inline std::string& data_form()
@@ -974,8 +1008,7 @@ void assign_data(D d, const bytes& b)
                 -> std::ptrdiff_t                                             \
             {                                                                 \
                 auto g = LV(M{p, n}, ip).NAME();                              \
-                auto h = ::sbepp::fill_group_header(                          \
-                    g, static_cast<typename decltype(g)::size_type>(c));      \
+                auto h = ::vh::fill_group(g, c);                              \
                 return ::sbepp::addressof(h) - p;                             \
             },                                                                \
             [](char* p, std::size_t n, ::vh::ipath ip, std::uint64_t c)       \
